@@ -45,10 +45,23 @@ impl AssignAddTransform {
                 };
                 // `O.p += e` must evaluate O (and a computed key) once: the target becomes
                 // `(t0 = O).p` / `(t0 = O)[t1 = K]` and the value is read back through the temporaries
+                // (the same for `super[K] += e` and for a parenthesised target `(O[K]) += e`)
                 let (target, left_operand) = match left_expr {
                     SimpleAssignTarget::Member(member) => {
                         split_member_target(member, &span, opv.ident_provider)
                     }
+                    SimpleAssignTarget::SuperProp(super_prop) => {
+                        split_super_prop_target(super_prop, &span, opv.ident_provider)
+                    }
+                    SimpleAssignTarget::Paren(paren) => match unwrap_parens(&paren.expr) {
+                        Expr::Member(member) => {
+                            split_member_target(member, &span, opv.ident_provider)
+                        }
+                        Expr::SuperProp(super_prop) => {
+                            split_super_prop_target(super_prop, &span, opv.ident_provider)
+                        }
+                        _ => (assign.left.clone(), left_expr.clone().into()),
+                    },
                     _ => (assign.left.clone(), left_expr.clone().into()),
                 };
 
@@ -136,5 +149,41 @@ fn split_member_target(
     (
         AssignTarget::Simple(SimpleAssignTarget::Member(target)),
         Box::new(Expr::Member(read)),
+    )
+}
+
+fn unwrap_parens(expr: &Expr) -> &Expr {
+    match expr {
+        Expr::Paren(paren) => unwrap_parens(&paren.expr),
+        _ => expr,
+    }
+}
+
+fn split_super_prop_target(
+    super_prop: &SuperPropExpr,
+    span: &Span,
+    ident_provider: &mut dyn IdentProvider,
+) -> (AssignTarget, Box<Expr>) {
+    let mut target = super_prop.clone();
+    let mut read = super_prop.clone();
+
+    if let SuperProp::Computed(computed) = &super_prop.prop {
+        if !is_simple_target_part(&computed.expr) {
+            if let Some((assignation, ident)) = hoist(&computed.expr, span, ident_provider) {
+                target.prop = SuperProp::Computed(ComputedPropName {
+                    span: computed.span,
+                    expr: Box::new(assignation),
+                });
+                read.prop = SuperProp::Computed(ComputedPropName {
+                    span: computed.span,
+                    expr: Box::new(ident),
+                });
+            }
+        }
+    }
+
+    (
+        AssignTarget::Simple(SimpleAssignTarget::SuperProp(target)),
+        Box::new(Expr::SuperProp(read)),
     )
 }
